@@ -68,6 +68,30 @@ pub fn scn_checksums(o: &Opts, tr: &mut Tr, prop: &str) {
             }
         }
     }
+    // modular edges of Adler-32: running sums that land exactly on, just below and just above the modulus
+    // 65521 within one short chunk (and within one long chunk), from start values next to the modulus
+    tr.case("ck-adler-modulus-edges", prop, json!({}));
+    for s1 in [65520u32, 65519, 65506, 65505, 65280, 61441, 1, 0] {
+        for s2 in [65520u32, 0, 12345, 65519] {
+            for m in [1usize, 2, 7, 15, 16, 17, 31, 300] {
+                for delta in [-1i64, 0, 1] {
+                    let target = 65521i64 - s1 as i64 + delta;
+                    if target < 0 || target > 255 * m as i64 { continue; }
+                    let mut d = vec![0u8; m];
+                    let mut left = target as usize;
+                    for (i, b) in d.iter_mut().enumerate() {
+                        let share = (left / (m - i)).min(255);
+                        let v = if i == m - 1 { left.min(255) } else { share };
+                        *b = v as u8;
+                        left -= v;
+                    }
+                    let start = (s2 << 16) | s1;
+                    ev(tr, "adler", "rust", start, &d, adler_rust(start, &d) as u64, false);
+                    ev(tr, "adler", "c", start, &d, adler_c(start as u64, &d), false);
+                }
+            }
+        }
+    }
     // C entry points: null pointer, start value wider than 32 bits (only the low 32 bits count)
     tr.case("ck-c-misc", prop, json!({}));
     let d = gen::data("rand", 300, &mut r);
